@@ -36,8 +36,9 @@ MANIFEST = dict(
         "(alpha = 1/n start, coefficient sum 1; via initWith_inv) show that these problems start inside the C08 invariant, "
         "psd_block that the epsilon-regression block matrix [[K,K],[K,K]] is PSD when K is, so all theorems above apply to them; "
         "warm starts: setInitialSolution_inv (the rebuilt gradient and edge gradient satisfy the invariant for any start vector "
-        "in the box), warmStart_in_box and warmStart_sum_zero (the clipped and re-balanced start vector of the repaired "
-        "CSvmTrainer::optimize lies in the per-example box and, with bias, sums to exactly 0), warm_start_inv. End to end: "
+        "in the box), warmStart_in_box, warmStart_sum_zero and warmStart_untouched (the start vector of the repaired "
+        "CSvmTrainer::optimize lies in the per-example box; with bias it sums to exactly 0 whenever clipping changed a "
+        "coefficient; a previous vector that fits the box is passed through unchanged), warm_start_inv. End to end: "
         "solve_acc (AccuracyReached => all variables active and checkKKT < eps in the returned state), solve_optimal_box / "
         "csvm_nobias_optimal -- for a PSD kernel, whenever the model of the trainer without bias reports AccuracyReached the "
         "returned coefficients are eps*sum(U-L)-optimal among ALL feasible vectors, with no hypothesis about the run (built on "
